@@ -284,6 +284,24 @@ fn parse_ident(text: &str) -> IResult<&str, String> {
     Ok((rest, name.into_iter().collect()))
 }
 
+/// Run an identifier parser but return the name as written: class names and
+/// ids are case-sensitive, unlike keywords and element names (which the
+/// identifier parsers lower-case).  Names containing escapes keep the parser's
+/// unescaped result.
+fn original_case<'a>(
+    parser: impl Fn(&'a str) -> IResult<&'a str, String>,
+    text: &'a str,
+) -> IResult<&'a str, String> {
+    let (start, _) = skip_optional_whitespace(text)?;
+    let (rest, name) = parser(start)?;
+    let raw = &start[..start.len() - rest.len()];
+    if raw.contains('\\') {
+        Ok((rest, name))
+    } else {
+        Ok((rest, raw.to_string()))
+    }
+}
+
 fn parse_identstring(text: &str) -> IResult<&str, String> {
     let (rest, _) = skip_optional_whitespace(text)?;
 
@@ -799,7 +817,7 @@ pub(crate) fn parse_rules(text: &str) -> IResult<&str, Vec<Declaration>> {
 
 fn parse_class(text: &str) -> IResult<&str, SelectorComponent> {
     let (rest, _) = tag(".")(text)?;
-    let (rest, classname) = parse_ident(rest)?;
+    let (rest, classname) = original_case(parse_ident, rest)?;
     Ok((rest, SelectorComponent::Class(classname)))
 }
 
@@ -898,7 +916,7 @@ fn parse_pseudo_class(text: &str) -> IResult<&str, SelectorComponent> {
 
 fn parse_hash(text: &str) -> IResult<&str, SelectorComponent> {
     let (rest, _) = tag("#")(text)?;
-    let (rest, word) = parse_identstring(rest)?;
+    let (rest, word) = original_case(parse_identstring, rest)?;
     Ok((rest, SelectorComponent::Hash(word)))
 }
 
